@@ -548,6 +548,11 @@ func (e *Exec) visibleCall(g *G, fr *Frame, call *ssa.CallCommon) *visOp {
 		return nil
 	}
 	name := fn.String()
+	if e.hcfg != nil {
+		if _, cut := e.hcfg.Cuts[name]; cut {
+			return nil // replaced by a harness function: its own operations are the visible ones
+		}
+	}
 	switch name {
 	case "(*sync.Mutex).Lock":
 		p := e.get(fr, call.Args[0]).(Ptr)
